@@ -1,6 +1,7 @@
 /-
 C12 — `TryFrom<repr>` is the exact inverse of the enum-to-integer cast.
 -/
+import Dm.Gen.ReprInts
 import Dm.Model.TryFromRepr
 
 namespace Dm.Props.C12
@@ -173,6 +174,14 @@ valid enum (`A128 = 127`), but `(-1) + 128` with `128` read as an `i8` literal i
 which overflows: the derive did not compile. The wrapping form gives 127. -/
 theorem i8_far_variant_witness :
     constChecked i8 (-1) 128 = none ∧ constW i8 (-1) 128 = 127 ∧ i8.fits (-1 + 128) = true := by decide
+
+/-- The integer names the working tree's `attr::ReprInt` recognises (table regenerated from
+impl/src/utils.rs on every run) are exactly the twelve integer types of the model, each once, and
+its default is the model's (`isize`): a hint the code does not know would be skipped silently. -/
+theorem source_repr_ints_are_the_model :
+    Dm.Gen.reprIntNames = allIntTys.map IntTy.name ∧ Dm.Gen.reprDefaultName = IntTy.isize.name
+    ∧ Dm.Gen.reprIntUnread = 0 ∧ (allIntTys.map IntTy.name).Nodup := by
+  decide +kernel
 
 /-- The representation type: a single integer hint among any other hints, else `isize`. -/
 theorem repr_single_attr (hs : List Hint) :
